@@ -326,3 +326,102 @@ Theorem prefix_measures bad r1 r2 s1 s :
 Proof.
   intros H1 H. rewrite run_rows_app, H1 in H. simpl in H. eapply run_rows_mst_prefix; exact H.
 Qed.
+
+(* ------------------------------------------------------------------ C07: the measure index is strictly increasing
+   and addresses existing stages *)
+From Coq Require Import Sorted.
+
+Definition mst_ok (s : istate) : Prop :=
+  StronglySorted lt (d_mst (i_doc s)) /\ Forall (fun m => 1 <= m <= i_stage s) (d_mst (i_doc s)).
+
+Lemma step_row_stage bad s row s' : step_row bad s row = IOk s' ->
+  i_stage s' = if nonempty row then S (i_stage s) else i_stage s.
+Proof.
+  intros H. destruct row as [|first rest]; [simpl in H; injection H as <-; reflexivity|].
+  cbn [nonempty]. unfold step_row in H.
+  destruct (startswith "!!" first).
+  - destruct (add_node _ _ _ _ _ _ _) as [[d1 id]| |]; try discriminate. injection H as <-. reflexivity.
+  - match type of H with context [step_cells bad ?r ?s0 0 ?r false] =>
+      remember s0 as st0 eqn:Est0; destruct (step_cells bad r st0 0 r false) as [[s1 bar]| |] eqn:Hc end; try discriminate.
+    injection H as <-. cbn [i_stage].
+    assert (Hst0 : i_stage st0 = List.length (repeat 0 (S (i_stage s)))) by (subst st0; cbn [i_stage]; now rewrite repeat_length).
+    (* reuse the stage bookkeeping of step_cells: the stage counter is not touched by cells *)
+    clear -Hc Est0. revert Hc. generalize 0 at 1. generalize false. generalize (first :: rest) at 2.
+    intros cols. revert st0 Est0. induction cols as [|c cols IH]; intros st0 Est0 bar0 n Hc; simpl in Hc.
+    + injection Hc as <- _. subst st0. reflexivity.
+    + destruct (step_cell bad (first :: rest) st0 n c) as [[s2 b2]| |] eqn:H2; try discriminate.
+      assert (E2 : i_stage s2 = i_stage st0).
+      { clear -H2. unfold step_cell in H2.
+        destruct (startswith "**" c).
+        - destruct (add_node _ _ _ _ _ _ _) as [[d1 id]| |]; try discriminate. injection H2 as <- _. reflexivity.
+        - destruct (mem_str c spine_operations).
+          + destruct (i_prev st0); [|discriminate]. destruct (Nat.leb _ n); [discriminate|].
+            destruct (add_node _ _ _ _ _ _ _) as [[d1 id]| |]; try discriminate.
+            destruct (String.eqb c "*-"); [injection H2 as <- _; reflexivity|].
+            destruct (String.eqb c "*+" || String.eqb c "*^"); [injection H2 as <- _; reflexivity|].
+            destruct (String.eqb c "*v"); [|discriminate]. injection H2 as <- _.
+            destruct (match n with O => true | S _ => _ end); reflexivity.
+          + match goal with H : context [match ?X with IOk _ => _ | IErr _ => _ | IOut => _ end] |- _ => destruct X as [[tok is_err]| |] end;
+              try discriminate.
+            destruct (i_prev st0); [|discriminate]. destruct (Nat.leb _ n); [discriminate|].
+            destruct (add_node _ _ _ _ _ _ _) as [[d1 id]| |]; try discriminate. injection H2 as <- _. reflexivity. }
+      assert (G : forall st bar1 m s3 b3, step_cells bad (first :: rest) st m cols bar1 = IOk (s3, b3) -> i_stage s3 = i_stage st).
+      { clear. induction cols as [|c cols IH]; intros st bar1 m s3 b3 H; simpl in H; [injection H as <- _; reflexivity|].
+        destruct (step_cell bad (first :: rest) st m c) as [[s2 b2]| |] eqn:H2; try discriminate.
+        rewrite (IH _ _ _ _ _ H). clear -H2. unfold step_cell in H2.
+        destruct (startswith "**" c).
+        - destruct (add_node _ _ _ _ _ _ _) as [[d1 id]| |]; try discriminate. injection H2 as <- _. reflexivity.
+        - destruct (mem_str c spine_operations).
+          + destruct (i_prev st); [|discriminate]. destruct (Nat.leb _ m); [discriminate|].
+            destruct (add_node _ _ _ _ _ _ _) as [[d1 id]| |]; try discriminate.
+            destruct (String.eqb c "*-"); [injection H2 as <- _; reflexivity|].
+            destruct (String.eqb c "*+" || String.eqb c "*^"); [injection H2 as <- _; reflexivity|].
+            destruct (String.eqb c "*v"); [|discriminate]. injection H2 as <- _.
+            destruct (match m with O => true | S _ => _ end); reflexivity.
+          + match goal with H : context [match ?X with IOk _ => _ | IErr _ => _ | IOut => _ end] |- _ => destruct X as [[tok is_err]| |] end;
+              try discriminate.
+            destruct (i_prev st); [|discriminate]. destruct (Nat.leb _ m); [discriminate|].
+            destruct (add_node _ _ _ _ _ _ _) as [[d1 id]| |]; try discriminate. injection H2 as <- _. reflexivity. }
+      rewrite (G _ _ _ _ _ Hc), E2. subst st0. reflexivity.
+Qed.
+
+Lemma sorted_snoc l x : StronglySorted lt l -> Forall (fun m => m < x) l -> StronglySorted lt (l ++ [x]).
+Proof.
+  induction l as [|y l IH]; intros Hs Hf; simpl; [constructor; constructor|].
+  inversion Hs as [|? ? Hs' Hall]; subst. inversion Hf as [|? ? Hy Hf']; subst.
+  constructor; [apply IH; assumption|]. apply Forall_app. split; [exact Hall | constructor; [exact Hy | constructor]].
+Qed.
+
+Lemma step_row_mst_ok bad s row s' : mst_ok s -> step_row bad s row = IOk s' -> mst_ok s'.
+Proof.
+  intros [Hs Hb] H. pose proof (step_row_stage _ _ _ _ H) as Hst. destruct (step_row_mst _ _ _ _ H) as [E|E].
+  - unfold mst_ok. rewrite E. split; [exact Hs|]. eapply Forall_impl; [|exact Hb]. intros m Hm. cbv beta in *.
+    rewrite Hst. destruct (nonempty row); lia.
+  - assert (Hne : nonempty row = true).
+    { destruct row; [|reflexivity]. simpl in H. injection H as <-. exfalso.
+      apply (f_equal (@List.length nat)) in E. rewrite app_length in E. simpl in E. lia. }
+    rewrite Hne in Hst. unfold mst_ok. rewrite E, Hst. split.
+    + apply sorted_snoc; [exact Hs|]. eapply Forall_impl; [|exact Hb]. intros m Hm. cbv beta in *. lia.
+    + apply Forall_app. split; [eapply Forall_impl; [|exact Hb]; intros m Hm; cbv beta in *; lia | constructor; [lia | constructor]].
+Qed.
+
+Theorem measure_index_sorted bad : forall rows s s', mst_ok s -> run_rows bad s rows = IOk s' -> mst_ok s'.
+Proof.
+  induction rows as [|r rows IH]; intros s s' Hok; simpl; [intros H; injection H as <-; exact Hok|].
+  destruct (step_row bad s r) as [s1| |] eqn:Hr; try discriminate. intros H.
+  eapply IH; [eapply step_row_mst_ok; eassumption | exact H].
+Qed.
+
+(* every imported document: the measure index is strictly increasing and every entry is an existing stage *)
+Theorem loads_measure_index bad text d : loads bad text = IOk d ->
+  StronglySorted lt (d_mst d) /\ Forall (fun m => 1 <= m < List.length (d_stages d)) (d_mst d).
+Proof.
+  unfold loads. destruct (run_rows bad init_state (rows_of_text text)) as [s| |] eqn:H; try discriminate.
+  intros E. injection E as <-.
+  assert (H0 : mst_ok init_state) by (split; constructor).
+  destruct (measure_index_sorted _ _ _ _ H0 H) as [Hs Hb]. split; [exact Hs|].
+  destruct (run_rows_inv bad _ _ _ _ init_inv H) as [HL Hlen].
+  assert (Hn : List.length (d_stages (i_doc s)) = S (i_stage s)).
+  { unfold stage_lengths in HL. apply (f_equal (@List.length nat)) in HL. rewrite map_length in HL. rewrite HL. exact Hlen. }
+  eapply Forall_impl; [|exact Hb]. intros m Hm. cbv beta in *. lia.
+Qed.
